@@ -137,7 +137,7 @@ def run(ctx):
     for i, rec in enumerate(pick):
         outs = ["pie", "shared", "staticpie"] if not ctx.quick else [["pie", "shared", "staticpie"][i % 3]]
         for o in outs:
-            cases.append(rg.ptr_case(rec, o, got=(i % 2 == 0)))
+            cases.append(rg.ptr_case(rec, o, got=(i % 2 == 0), alias=(i % 4 >= 2 and o != "shared")))   # a default-visibility alias in a shared object is preemptible: symbolic, not relative
     libc_n = 4 if ctx.quick else 40
     for rec in rng.sample(recs, libc_n):
         cases.append(rg.ptr_case(rec, "staticpie-libc", got=True))
